@@ -45,6 +45,8 @@ LIFECYCLE = ["replace_overlay", "unload_plain", "load_second_anon"]
 EXTRA = ["ready_firsthop_ipv8"]
 # messages the anonymised overlay receives (through the tunnel) and reacts to on its own
 INCOMING = ["in_intro_request", "in_intro_response6", "in_puncture_request"]
+# what another TunnelEndpoint of the same process does (a second pseudonym running the same community without anonymity)
+OTHER = ["other_plain_send", "other_anon_off"]
 
 
 class Rig:
@@ -76,10 +78,14 @@ class Rig:
         # a remote member of overlay A (plain node): the source of genuine signed messages that A receives
         self.remote = Node(self.net, 1)
         self.B = self.remote.add(type("AnonA", (Community,), {"community_id": b"A" * 20}))
+        # another pseudonym of the same process: its own TunnelEndpoint, the same community as A, but plain
+        self.node2 = Node(self.net, 2, tunnel_endpoint=True)
+        self.P2 = self.node2.add(type("AnonA", (Community,), {"community_id": b"A" * 20}), anonymize=False)
         self.te = self.node.endpoint
         self.cfg_hops = 2
         self.te.set_tunnel_community(self.tc, self.cfg_hops)
         self.base_settings = dict(self.te.settings)
+        self.base_settings2 = dict(self.node2.endpoint.settings)
         self.peers = [self._peer(i) for i in range(1, 5)]
         from ipv8_rust_tunnels import generate_session_keys
         self.keys = [generate_session_keys(os.urandom(64)) for _ in range(4)]
@@ -105,6 +111,9 @@ class Rig:
 
     def reset(self) -> None:
         self.tc.circuits.clear()
+        self.node2.endpoint.send_queue.clear()
+        self.node2.endpoint.settings.clear()
+        self.node2.endpoint.settings.update(self.base_settings2)
         self.te.send_queue.clear()
         self.te.settings.clear()
         self.te.settings.update(self.base_settings)
@@ -312,6 +321,23 @@ async def run_word(rig: Rig, word: list, case: dict) -> tuple[bool, str]:
             te.notify_listeners((src, packet), from_tunnel=True)
             nontrivial = True
             check_raw(step)
+        elif ev == "other_plain_send":
+            rig.counter += 1
+            body = hashlib.sha256(b"pv-c07-other" + rig.counter.to_bytes(4, "big")).digest()
+            packet = rig.P2.get_prefix() + b"\x07" + body
+            n0 = len(rig.net.log)
+            rig.P2.endpoint.send(("1.0.0.9", 9009), packet)
+            direct = [fl for fl in rig.net.log[n0:] if fl.data == packet and fl.origin is rig.node2.raw_endpoint]
+            if len(direct) != 1:
+                fail("A3", "plain:other_endpoint", f"the plain overlay on ANOTHER TunnelEndpoint of the process had its packet "
+                                                   f"handed to its own socket {len(direct)} times (queued there: "
+                                                   f"{len(rig.node2.endpoint.send_queue)})")
+            raw_checked[0] = len(rig.net.log)
+            nontrivial = True
+        elif ev == "other_anon_off":
+            # the other endpoint switches anonymity off for the community it shares with A: that is its own business
+            rig.node2.endpoint.set_anonymity(rig.A.get_prefix(), False)
+            state_change_since_send = True
         elif ev == "replace_overlay":
             # the application restarts the anonymised overlay: a new instance (same community id, same prefix, again
             # asking for anonymity) is loaded on the shared endpoint, then the old instance is unloaded
@@ -381,7 +407,7 @@ def _enum_shard(ctx: Ctx, shard: int, nshards: int, depth: int) -> None:
                         ctx.violation(v)
             # incoming family: every word of length <= 3 over sends, a circuit, the anonymity switch and the messages
             # overlay A receives, with at least one received message - on every kind of endpoint stack
-            inc = ["send_anon", "send_plain", "ready_ok", "anon_toggle", *INCOMING]
+            inc = ["send_anon", "send_plain", "ready_ok", "anon_toggle", *INCOMING, *OTHER]
             for stack in (None, "v4", "dual"):
                 for d in range(1, 4):
                     for idxs in itertools.product(range(len(inc)), repeat=d):
@@ -399,6 +425,7 @@ def _enum_shard(ctx: Ctx, shard: int, nshards: int, depth: int) -> None:
             for rig in rigs.values():
                 loop.run_until_complete(rig.node.unload())
                 loop.run_until_complete(rig.remote.unload())
+                loop.run_until_complete(rig.node2.unload())
     ctx.note("exhaustive_depth", depth)
 
 
@@ -412,7 +439,7 @@ def _random_shard(ctx: Ctx, shard: int, nshards: int, n: int) -> None:
                 case = {"word": word, "stack": stack}
                 nt, cls = loop.run_until_complete(run_word(rig, word, case))
                 ctx.case(case, nt, cls=cls)
-            hyp_run(ctx, "words", st.lists(st.sampled_from(ALPHABET + ALPHABET[:3] * 2 + LIFECYCLE + EXTRA + INCOMING),
+            hyp_run(ctx, "words", st.lists(st.sampled_from(ALPHABET + ALPHABET[:3] * 2 + LIFECYCLE + EXTRA + INCOMING + OTHER),
                                            min_size=1, max_size=60), body, n)
         finally:
             loop.run_until_complete(rig.node.unload())
